@@ -2586,3 +2586,58 @@ pub fn c02_noise_stream(nd: &mut Nondet) {
     }
     cover("c02.delivered");
 }
+
+/// C02 (attacks on the wire, at frame granularity): truncation, drop, replay, reordering and damage to the
+/// length prefix or the authentication tag never make the reader deliver anything but a prefix of what was sent.
+pub fn c02_noise_attacks(nd: &mut Nondet) {
+    let (dialer_cipher, listener_cipher) = noise_hooks::cipher_pair();
+    let mut link = Link { ab: Vec::new(), ab_read: 0, ba: Vec::new(), ba_read: 0, a_closed: false, b_closed: false };
+    let lp = &mut link as *mut Link;
+    let mut budget = 0u64;                      // ideal carrier: the attacker is modelled explicitly below
+    let bp = &mut budget as *mut u64;
+    let end_a = LinkEnd { link: lp, is_a: true, nd: nd as *mut Nondet, budget: bp };
+    let end_b = LinkEnd { link: lp, is_a: false, nd: nd as *mut Nondet, budget: bp };
+    let mut writer = noise_hooks::socket(end_a, dialer_cipher, 2, 2);
+    let mut reader = noise_hooks::socket(end_b, listener_cipher, 2, 2);
+    let waker = noop_waker();
+    let mut cx = Context::from_waker(&waker);
+    // two frames: 3 and 4 payload bytes, each flushed
+    let data = nd.pattern(7);
+    for (from, to) in [(0usize, 3usize), (3, 7)] {
+        match futures::io::AsyncWrite::poll_write(Pin::new(&mut writer), &mut cx, &data[from..to]) { Poll::Ready(Ok(n)) if n == to - from => {}, _ => { check("c02a.setup-write", false); return; } }
+        match futures::io::AsyncWrite::poll_flush(Pin::new(&mut writer), &mut cx) { Poll::Ready(Ok(())) => {}, _ => { check("c02a.setup-flush", false); return; } }
+    }
+    let wire = unsafe { (*lp).ab.clone() };
+    let f1 = 2 + 3 + 16;                        // length prefix + payload + tag
+    check("c02a.wire-layout", wire.len() == f1 + 2 + 4 + 16);
+    // the attacker rewrites the bytes in transit; `intact` = number of leading payload bytes that are unaffected
+    let (attacked, intact): (Vec<u8>, usize) = match nd.choose("attack", 8) {
+        0 => (wire.clone(), 7),                                                                       // no attack
+        1 => (wire[..wire.len() - 1].to_vec(), 3),                                                    // truncated
+        2 => (wire[f1..].to_vec(), 0),                                                                // first frame dropped
+        3 => { let mut w = wire[..f1].to_vec(); w.extend_from_slice(&wire[..f1]); w.extend_from_slice(&wire[f1..]); (w, 3) }   // replayed
+        4 => { let mut w = wire[f1..].to_vec(); w.extend_from_slice(&wire[..f1]); (w, 0) }          // reordered
+        5 => { let mut w = wire.clone(); w[f1 - 1] ^= 1; (w, 0) }                                     // tag of frame 1 damaged
+        6 => { let mut w = wire.clone(); w[f1 + 1] = w[f1 + 1].wrapping_sub(1); (w, 3) }              // length of frame 2 shortened
+        _ => { let mut w = wire.clone(); let last = w.len() - 1; w[last] ^= 0x80; (w, 3) }            // tag of frame 2 damaged
+    };
+    unsafe { (*lp).ab = attacked; (*lp).a_closed = true; }
+    let mut delivered = 0usize;
+    let mut buf = [0u8; 16];
+    let mut spins = 0;
+    loop {
+        spins += 1;
+        if spins > 12 { check("c02a.reader-terminates", false); return; }
+        match futures::io::AsyncRead::poll_read(Pin::new(&mut reader), &mut cx, &mut buf[..]) {
+            Poll::Ready(Ok(n)) => {
+                if n == 0 { cover("c02a.eof"); break; }
+                check("c02a.only-unaltered-bytes-are-delivered", delivered + n <= intact && buf[..n] == data[delivered..delivered + n]);
+                delivered += n;
+                cover("c02a.data");
+            }
+            Poll::Ready(Err(_)) => { cover("c02a.error"); break; }
+            Poll::Pending => { cover("c02a.pending"); break; }
+        }
+    }
+    check("c02a.everything-before-the-attack-is-delivered", delivered == intact);
+}
